@@ -250,3 +250,57 @@ def tree_depth(tree):
     if tree[0] == 'v':
         return 0
     return 1 + max([tree_depth(ch) for ch in tree[2:]] or [0])
+
+
+# ------------------------------------------------------------------ statement-level programs on SHARED objects
+INPLACE = {
+    'iadd': lambda x, y: x.__iadd__(y), 'isub': lambda x, y: x.__isub__(y), 'imul': lambda x, y: x.__imul__(y),
+    'itruediv': lambda x, y: x.__itruediv__(y), 'ifloordiv': lambda x, y: x.__ifloordiv__(y),
+    'imod': lambda x, y: x.__imod__(y), 'ipow': lambda x, y: x.__ipow__(y) if hasattr(x, '__ipow__') else x.__pow__(y),
+    'iand': lambda x, y: x.__iand__(y), 'ior': lambda x, y: x.__ior__(y), 'ixor': lambda x, y: x.__ixor__(y),
+}
+
+
+def run_prog(prog, env, variant):
+    """a program is a list of statements over the leaves of `env`, built ONCE and then mutated:
+         ['query', tree]                         observe the result of an expression
+         ['set', i, pattern, index_tree, rhs]    x_i[index] = rhs   (rhs: tree or number), then observe x_i
+         ['iop', name, i, rhs]                   x_i <op>= rhs      (rhs: tree or number), then observe x_i
+       returns the list of (statement label, canonical observation | exception enum)"""
+    objs = [build(l, variant) for l in env]
+    out = []
+
+    def ev(node):
+        if not isinstance(node, list):
+            return node
+        if node[0] == 'v':
+            return objs[node[1]]
+        args = [ev(ch) for ch in node[2:]]
+        return apply_op(node[0], node[1], args)
+
+    with warnings.catch_warnings(record=True):
+        warnings.simplefilter('always')
+        for st in prog:
+            kind = st[0]
+            try:
+                if kind == 'query':
+                    label = 'query:' + st[1][0]
+                    out.append((label, obs(ev(st[1]))))
+                elif kind == 'set':
+                    it = st[3]
+                    label = 'setitem-' + (env[it[1]]['t'] if isinstance(it, list) and it[0] == 'v' else 'T')
+                    x = objs[st[1]]
+                    x[_idx(st[2], ev(st[3]))] = ev(st[4])
+                    out.append((label, obs(x)))
+                elif kind == 'iop':
+                    label = st[1]
+                    x = objs[st[2]]
+                    r = INPLACE[st[1]](x, ev(st[3]))
+                    if r is not x and isinstance(r, Qube):
+                        objs[st[2]] = r
+                    out.append((label, obs(objs[st[2]])))
+                else:
+                    raise KeyError(kind)
+            except Exception as e:
+                out.append((label, C.exc_name(e)))
+    return out
